@@ -1,5 +1,6 @@
 """C30 — Confidential discovery yields exactly the common topics."""
 import itertools
+import random
 
 ID = "C30"
 HARNESS_PKG = "h_c30"
@@ -117,6 +118,58 @@ def _honest(rng, umax, nmax, seed):
             "ta": ta, "tb": tb, "bookA": _book(rng, 0, u, nmax, common, ta), "bookB": _book(rng, 1, u, nmax, common, tb)}
 
 
+# (|ta|, |tb|, |common|) of the fixed large-set sessions: around and above 256 on one / both sides
+BIG_FIXED = [
+    (255, 255, 255), (256, 256, 256), (257, 257, 257),      # equal sets at the boundary
+    (257, 10, 5), (10, 257, 10),                             # one side only, small overlap / subset
+    (300, 300, 280), (300, 600, 260), (600, 280, 270),       # both / one side, 256+ common topics
+    (400, 40, 3), (30, 400, 2),                              # small overlaps
+]
+BIG_SIZES = [255, 256, 257, 258, 300, 400, 511, 512, 513, 600, 640]
+
+
+def _big_books(rng, common, ta, tb):
+    """Address books of 0-1 nodes (the canonical line stays dominated by the topic lists)."""
+    def one(me, own):
+        r = rng.random()
+        if r < 0.3:
+            return []
+        i = me if r < 0.65 else rng.randint(2, 5)
+        ts = sorted(set(([rng.choice(common)] if common and rng.random() < 0.6 else []) + ([rng.choice(own)] if own and rng.random() < 0.4 else [])))
+        return [[i, 1 if rng.random() < 0.15 else 0, 100 * (me + 1) + i, ts]]
+    return one(0, ta), one(1, tb)
+
+
+def _big(rng, na, nb, nc, seed):
+    """Honest session with |ta| = na, |tb| = nb and nc common topics (topic numbers shuffled)."""
+    nc = min(nc, na, nb)
+    nums = list(range(na + nb - nc))
+    rng.shuffle(nums)
+    common = nums[:nc]
+    ta = common + nums[nc:na]
+    tb = common + nums[na:]
+    rng.shuffle(ta)
+    rng.shuffle(tb)
+    ba, bb = _big_books(rng, common, ta, tb)
+    return {"mode": "honest", "seed": seed, "ra": 0 if rng.random() < 0.25 else 1, "rb": 0 if rng.random() < 0.25 else 1,
+            "ta": ta, "tb": tb, "bookA": ba, "bookB": bb}
+
+
+def _big_cases(tier, rng):
+    seed0 = (1 << 30) + rng.randrange(1 << 29)
+    out = [_big(rng, na, nb, nc, seed0 + i) for i, (na, nb, nc) in enumerate(BIG_FIXED)]
+    if tier != "quick":
+        for i in range(40):
+            na = rng.choice(BIG_SIZES)
+            nb = rng.choice(BIG_SIZES) if rng.random() < 0.6 else rng.choice([0, 1, 5, 40, 200])
+            if rng.random() < 0.5:
+                na, nb = nb, na
+            lo = min(na, nb)
+            nc = rng.choice([0, 1, rng.randint(0, lo), lo, max(0, lo - 1), min(lo, 256), min(lo, 257), min(lo, 255)])
+            out.append(_big(rng, na, nb, nc, seed0 + 100 + i))
+    return out
+
+
 def _words(rng, u, byte_ok, own):
     ws = []
     n = rng.randint(0, 6)
@@ -196,6 +249,21 @@ SMALL_BOOKS = [
 
 
 def gen(tier, rng):
+    """The base stream with one large-topic-set session injected every `stride` cases: the Coq evaluation is sharded in
+    contiguous blocks of COQ_SHARD/2 cases, so the expensive cases end up in different shards."""
+    big = _big_cases(tier, random.Random(rng.randrange(1 << 30)))
+    stride = 58 if tier == "quick" else 53
+    n = 0
+    for c in _gen_base(tier, rng):
+        yield c
+        n += 1
+        if big and n % stride == 0:
+            yield big.pop(0)
+    for c in big:
+        yield c
+
+
+def _gen_base(tier, rng):
     seed0 = rng.randrange(1 << 30)
     k = 0
     subsets = [[], [0], [1], [0, 1]]
@@ -440,6 +508,20 @@ def shrink(case):
     def without(xs, i):
         return xs[:i] + xs[i + 1:]
     if case["mode"] == "honest":
+        # large topic sets: first drop topics from both sides alike / halves of one side
+        if max(len(case["ta"]), len(case["tb"])) > 16:
+            for drop in (set(case["ta"][::2]) | set(case["tb"][::2]), set(case["ta"][len(case["ta"]) // 2:]), set(case["tb"][len(case["tb"]) // 2:]),
+                         set(case["ta"][-8:]), set(case["tb"][-8:])):
+                if drop:
+                    c = dict(case)
+                    c["ta"] = [t for t in case["ta"] if t not in drop]
+                    c["tb"] = [t for t in case["tb"] if t not in drop]
+                    yield c
+                    for key in ("ta", "tb"):
+                        c = dict(case)
+                        c[key] = [t for t in case[key] if t not in drop]
+                        if len(c[key]) < len(case[key]):
+                            yield c
         for key in ("bookA", "bookB", "ta", "tb"):
             for i in range(len(case[key])):
                 c = dict(case)
@@ -471,7 +553,8 @@ def shrink(case):
 
 def distribution(cases, impl):
     d = {"honest": 0, "alice_script": 0, "bob_script": 0, "honest_common_nonempty": 0, "honest_restricted_any": 0,
-         "script_ok": 0, "script_unexpected": 0, "script_stream": 0, "max_topics": 0, "max_book": 0}
+         "script_ok": 0, "script_unexpected": 0, "script_stream": 0, "max_topics": 0, "max_book": 0,
+         "honest_over_256_one_side": 0, "honest_over_256_both_sides": 0, "honest_common_over_255": 0}
     for i, c in enumerate(cases):
         o = impl.get(i, "")
         if c["mode"] == "honest":
@@ -481,6 +564,13 @@ def distribution(cases, impl):
             if c["ra"] or c["rb"]:
                 d["honest_restricted_any"] += 1
             d["max_topics"] = max(d["max_topics"], len(c["ta"]), len(c["tb"]))
+            over = (len(c["ta"]) > 256) + (len(c["tb"]) > 256)
+            if over == 1:
+                d["honest_over_256_one_side"] += 1
+            elif over == 2:
+                d["honest_over_256_both_sides"] += 1
+            if len(set(c["ta"]) & set(c["tb"])) > 255:
+                d["honest_common_over_255"] += 1
             d["max_book"] = max(d["max_book"], len(c["bookA"]), len(c["bookB"]))
         else:
             d[c["mode"] + "_script"] += 1
